@@ -9,6 +9,7 @@ import (
 	"os"
 	"os/exec"
 	"path/filepath"
+	"runtime"
 	"sort"
 	"strings"
 	"sync"
@@ -31,6 +32,21 @@ type OblResult struct {
 var lastResortUsed int32
 
 const lastResortMax = 6
+
+// overloaded reports whether the machine runs clearly more than one process per core
+// (1-minute load average above 1.25 times the core count): the only situation in which the
+// last solver round is used.
+func overloaded() bool {
+	b, err := os.ReadFile("/proc/loadavg")
+	if err != nil {
+		return false
+	}
+	var l1 float64
+	if _, err := fmt.Sscanf(string(b), "%f", &l1); err != nil {
+		return false
+	}
+	return l1 > 1.25*float64(runtime.NumCPU())
+}
 
 func (r *OblResult) OK() bool {
 	if r.Obl.Cover {
@@ -266,7 +282,7 @@ func Solve(tr *TargetResult, opts *SolveOpts) []*OblResult {
 				if round > 0 && best.status != "timeout" && best.status != "unknown" {
 					break
 				}
-				if round == 2 && atomic.AddInt32(&lastResortUsed, 1) > lastResortMax {
+				if round == 2 && (!overloaded() || atomic.AddInt32(&lastResortUsed, 1) > lastResortMax) {
 					break
 				}
 				port := solversFor(base)
